@@ -286,10 +286,18 @@ def _gen_mixed(rng, tier, weights):
             q = rng.random()
             if q < 0.45 and sortable:
                 op = ["sort", rng.random() < 0.3]
-            elif q < 0.9:
+            elif q < 0.8:
                 op = ["reverse"]
             else:
+                # clear, refill, read positions: stale bookkeeping surviving clear() shows at once
                 op = ["clear"]
+                ops.append(op)
+                ref.apply(op)
+                op = ["update", [[rng.choice(["list", "tuple", "gen"]), rng.sample(range(univ), min(univ, rng.randint(2, 9)))]],
+                      "method"]
+                ops.append(op)
+                ref.apply(op)
+                op = ["snap"] if rng.random() < 0.5 else ["get", _idx(rng, len(ref.l))]
         ops.append(op)
         ref.apply(op)
     ops.append(["snap"])
@@ -335,6 +343,11 @@ def _gen_deletion(rng, tier):
             op = ["add", rng.randrange(univ + j)]
         elif r < 0.76:
             op = rng.choice([["sort", False], ["reverse"], ["sort", True]])
+            if rng.random() < 0.12 and n > 4:
+                # clear while tombstones exist, refill with part of the old content
+                ops.append(["clear"])
+                ref.apply(ops[-1])
+                op = ["update", [["list", list(range(max(4, n // 2)))]], "method"]
         elif r < 0.80:
             op = _setop(rng, ref, univ, True)
         else:
